@@ -200,6 +200,24 @@ func (e *Engine) verifyFunc(fn *ssa.Function, fc *FuncContract, safety bool, dev
 				fr.oblig(kind, a.c.Props, fn.Pos(), a.c.name(), or(a.conds...), and(a.goals...))
 			}
 		}
+		// "#*" site clauses must bind to at least one statement
+		for _, a := range fc.Asserts {
+			if a.Occ != -1 || a.E == nil {
+				continue
+			}
+			found := false
+			for _, b := range fn.Blocks {
+				for _, ins := range b.Instrs {
+					if c, ok := ins.(*ssa.Call); ok && fr.isAssertSite(a, c) {
+						found = true
+					}
+				}
+			}
+			if !found && (a.Kind == "assert" || a.Kind == "assign") {
+				o := fr.oblig("assert", a.Props, fn.Pos(), a.name(), "true", "false")
+				o.SrcLine = fmt.Sprintf("no statement containing %q exists in %s any more", a.Site, fn.Name())
+			}
+		}
 		fr.loopCoverObligations()
 		// vacuity: some normal exit is reachable under the assumptions made on the way
 		if len(fr.exits) > 0 && (len(fc.Ensures) > 0 || len(fc.Requires) > 0) {
